@@ -17,6 +17,7 @@ K.register_module("std_del", "src/stdlib/del.rs", "stdlib::del::kani_verif", STD
 K.register_module("std_exists", "src/stdlib/exists.rs", "stdlib::exists::kani_verif", STD)
 K.register_module("crud", "src/value/value/crud/mod.rs", "value::value::crud::kani_verif", "compiler")
 K.register_module("kind", "src/value/kind.rs", "value::kind::kani_verif", "compiler")
+K.register_module("path_owned", "src/path/owned.rs", "path::owned::kani_verif", "compiler")
 K.register_module("op", "src/compiler/expression/op.rs", "compiler::expression::op::kani_verif", "compiler")
 
 COMMON_TRUSTED = [
